@@ -17,7 +17,7 @@
    configuration in force after the history is [cfg_exec cfg ops].  In the
    one-call theorems [cfg] is the configuration in force at that call. *)
 From Coq Require Import ZArith List Bool String.
-From Verif Require Import C09.Model C09.Proofs gen.Gen_C09 gen.Gen_C09_impl C09.GenOk.
+From Verif Require Import C09.Model C09.Proofs C09.ProofsCb gen.Gen_C09 gen.Gen_C09_impl C09.GenOk.
 Import ListNotations.
 Open Scope Z_scope.
 
@@ -378,3 +378,202 @@ Theorem c09_gen_renew_refused_after_revocation :
     t_allow_renewal g = false /\ t_renew g t a re = (g, Ret (RBool false), []).
 Proof. exact gen_renew_refused_after_revocation. Qed.
 Print Assumptions c09_gen_renew_refused_after_revocation.
+
+(* ====================================================================== *)
+(* Lifecycle callbacks that RAISE.  on_phase_change / on_senescence run    *)
+(* inside the public call; when one raises (any exception class), the      *)
+(* exception leaves the call, whose caller handles it and goes on.  [c]    *)
+(* says for which (old, new) pairs on_phase_change raises and whether      *)
+(* on_senescence does, during ONE call; a history [h] pairs every call     *)
+(* with the behaviour in force during it (a callback that fails once, now  *)
+(* and then, always ...).  [step_cb] is the call, [xexec] the history.     *)
+(* What the property demands of the state afterwards holds all the same.   *)
+(* ====================================================================== *)
+
+(* With callbacks that return, the call is the plain call of the theorems above. *)
+Theorem c09_callbacks_that_return :
+  forall dep rate cfg s o,
+    step_cb dep rate current quiet_cbs cfg s o =
+    (step_state dep rate current cfg s o, Done (step_out dep rate current cfg s o), step_trans dep rate current cfg s o).
+Proof. exact step_cb_quiet_proof. Qed.
+Print Assumptions c09_callbacks_that_return.
+
+(* Legal transitions only, whatever the callbacks do: every notification a call makes is one that call may make,
+   and the notifications lead from the phase before the call to the phase after it - a transition that was
+   announced is never taken back, a phase never changes without its notification. *)
+Theorem c09_legal_transitions_raising_callbacks :
+  forall dep rate c cfg s o,
+    let s' := xstate dep rate current c cfg s o in
+    let tr := xtrans dep rate current c cfg s o in
+    Forall (fun t => legal_for o (fst t) (snd t) = true) tr /\
+    (o <> Reset -> chain (ph s) tr (ph s')) /\
+    (o = Reset -> tr = [] /\ ph s' = Nascent).
+Proof. exact xlegal_step_proof. Qed.
+Print Assumptions c09_legal_transitions_raising_callbacks.
+
+Theorem c09_legal_transitions_stream_raising_callbacks :
+  forall dep rate h cfg s,
+    Forall (fun t => allowed (fst t) (snd t) = true) (xstream dep rate current cfg s h).
+Proof. exact xlegal_stream_proof. Qed.
+Print Assumptions c09_legal_transitions_stream_raising_callbacks.
+
+(* TERMINATED is absorbing over every history with failing callbacks (reset aside). *)
+Theorem c09_terminated_absorbing_raising_callbacks :
+  forall dep rate h cfg s,
+    ph s = Terminated -> ~ In Reset (map snd h) -> ph (xexec dep rate current cfg s h) = Terminated.
+Proof. exact xterminated_absorbing_proof. Qed.
+Print Assumptions c09_terminated_absorbing_raising_callbacks.
+
+(* To TERMINATED on termination, to APOPTOTIC on apoptosis: terminate() leaves the lifecycle TERMINATED even when
+   its notification raises, and so it stays after any further history. *)
+Theorem c09_terminate_terminates_raising_callbacks :
+  forall dep rate c cfg s,
+    ph (xstate dep rate current c cfg s Terminate) = Terminated /\
+    (forall h, ~ In Reset (map snd h) ->
+       ph (xexec dep rate current cfg (xstate dep rate current c cfg s Terminate) h) = Terminated) /\
+    (ph s <> Terminated -> ph (xstate dep rate current c cfg s TriggerApoptosis) = Apoptotic).
+Proof.
+  exact (fun dep rate c cfg s =>
+           conj (xterminate_terminates_proof dep rate c cfg s)
+                (conj (xterminate_is_final_proof dep rate c cfg s) (xapoptosis_proof dep rate c cfg s))).
+Qed.
+Print Assumptions c09_terminate_terminates_raising_callbacks.
+
+(* APOPTOTIC / TERMINATED never tick; a tick that returns reports True exactly when ACTIVE afterwards. *)
+Theorem c09_ticks_raising_callbacks :
+  forall dep rate c cfg s k,
+    (ph s = Apoptotic \/ ph s = Terminated ->
+       step_cb dep rate current c cfg s (Tick k) = (s, Done (Ret (RBool false)), [])) /\
+    (forall r, xout dep rate current c cfg s (Tick k) = Done (Ret r) ->
+       exists b, r = RBool b /\ (b = true <-> ph (xstate dep rate current c cfg s (Tick k)) = Active)).
+Proof.
+  exact (fun dep rate c cfg s k =>
+           conj (xdead_never_ticks_proof dep rate c cfg s k) (xtick_true_iff_active_proof dep rate c cfg s k)).
+Qed.
+Print Assumptions c09_ticks_raising_callbacks.
+
+(* Renewal refused when disallowed or terminated (no callback runs in a refusal). *)
+Theorem c09_renew_refused_raising_callbacks :
+  forall dep rate c cfg s a r,
+    allow_renewal cfg = false \/ ph s = Terminated ->
+    step_cb dep rate current c cfg s (Renew a r) = (s, Done (Ret (RBool false)), []).
+Proof. exact xrenew_refused_proof. Qed.
+Print Assumptions c09_renew_refused_raising_callbacks.
+
+(* Error and time limits (and an exhausted telomere) force senescence whatever the callbacks do: the lifecycle is
+   SENESCENT afterwards, and the call returned False or handed back the callback's exception ([forced]).  The time
+   limits: after ANY history with failing callbacks, with the limits then in force. *)
+Theorem c09_limits_force_senescence_raising_callbacks :
+  forall dep rate c cfg,
+    (forall s, ph s = Active -> err_threshold cfg <= err_count s + 1 ->
+       ph (xstate dep rate current c cfg s RecordError) = Senescent /\
+       forced (xout dep rate current c cfg s RecordError)) /\
+    (forall s, ph s = Active -> 0 < ops_count s -> rate (err_count s + 1) (ops_count s) = true ->
+       ph (xstate dep rate current c cfg s RecordError) = Senescent /\
+       forced (xout dep rate current c cfg s RecordError)) /\
+    (forall s k, ph s = Active -> len s - k <= 0 ->
+       ph (xstate dep rate current c cfg s (Tick k)) = Senescent /\
+       forced (xout dep rate current c cfg s (Tick k))) /\
+    (forall h,
+       let s := xexec dep rate current cfg (init cfg) h in
+       let cf := cfg_exec cfg (map snd h) in
+       ph s = Active ->
+       exists t0 t1, started_at s = Some t0 /\ last_activity s = Some t1 /\
+         (((exists l, max_lifetime cf = Some l /\ l <> 0 /\ l <= now s - t0) \/
+           (exists l, idle_timeout cf = Some l /\ l <> 0 /\ l <= now s - t1)) ->
+          ph (xstate dep rate current c cf s CheckTimeouts) = Senescent /\
+          forced (xout dep rate current c cf s CheckTimeouts))).
+Proof.
+  exact (fun dep rate c cfg =>
+           conj (xerror_count_limit_proof dep rate c cfg)
+                (conj (xerror_rate_limit_proof dep rate c cfg)
+                      (conj (xdepletion_forces_senescence_proof dep rate c cfg)
+                            (fun h => xtime_limits_force_senescence_proof dep rate cfg h c)))).
+Qed.
+Print Assumptions c09_limits_force_senescence_raising_callbacks.
+
+(* Remaining length within [0, max] and the Hayflick bound over every history with failing callbacks: n = unit ticks
+   that reported True since the last renewal (a renew() that was carried out - it may have handed back the exception
+   of its SENESCENT -> ACTIVE notification - or a reset), cap = the max_operations in force at that renewal. *)
+Theorem c09_hayflick_raising_callbacks :
+  forall dep rate cfg h M,
+    0 <= max_ops cfg <= M -> Forall valid_op (map snd h) -> Forall (max_ops_within M) (map snd h) ->
+    let '(s', cap, n, spent) := xexec_count dep rate cfg (init cfg) (max_ops cfg) 0 0 h in
+    s' = xexec dep rate current cfg (init cfg) h /\
+    0 <= n /\ n <= spent /\ n + len s' <= cap /\ spent + len s' <= cap /\ n <= cap /\ cap <= M.
+Proof. exact xhayflick_proof. Qed.
+Print Assumptions c09_hayflick_raising_callbacks.
+
+Theorem c09_length_in_range_raising_callbacks :
+  forall dep rate cfg h M,
+    0 <= max_ops cfg <= M -> Forall valid_op (map snd h) -> Forall (max_ops_within M) (map snd h) ->
+    0 <= len (xexec dep rate current cfg (init cfg) h) <= M.
+Proof. exact xlength_in_range_proof. Qed.
+Print Assumptions c09_length_in_range_raising_callbacks.
+
+(* Every call returns: after any valid history with failing callbacks a call returns a value or hands back the
+   exception its own callback raised (never hangs, raises nothing of its own); with callbacks that do not raise it
+   returns. *)
+Theorem c09_every_call_returns_raising_callbacks :
+  forall dep rate cfg h c o,
+    0 <= max_ops cfg -> Forall valid_op (map snd h) -> valid_op o ->
+    let s := xexec dep rate current cfg (init cfg) h in
+    let cf := cfg_exec cfg (map snd h) in
+    ((exists r, xout dep rate current c cf s o = Done (Ret r)) \/ xout dep rate current c cf s o = CallbackRaised) /\
+    (pc_raise c = [] -> sen_raise c = false -> xout dep rate current c cf s o = Done (step_out dep rate current cf s o)).
+Proof.
+  exact (fun dep rate cfg h c o H Hv Ho =>
+           conj (xevery_call_returns_proof dep rate cfg h c o H Hv Ho)
+                (returns_unless_callback_raises_proof dep rate c _ _ o)).
+Qed.
+Print Assumptions c09_every_call_returns_raising_callbacks.
+
+(* The methods generated from telomere.py, cut at the notification that raises, are [step_cb]. *)
+Theorem c09_gen_step_raising_callbacks :
+  forall c cfg s o,
+    gstep_cb c (tproj cfg s) (now s) o =
+    (tproj (cfg_step cfg o) (xstate depleted_f64 rate_hit_f64 current c cfg s o),
+     xout depleted_f64 rate_hit_f64 current c cfg s o,
+     xtrans depleted_f64 rate_hit_f64 current c cfg s o).
+Proof. exact gstep_cb_ok. Qed.
+Print Assumptions c09_gen_step_raising_callbacks.
+
+(* ====================================================================== *)
+(* Two threads.  Every method works on the lifecycle attributes under the  *)
+(* object's lock, so an execution of two threads is the sequential         *)
+(* execution of its linearisation [merge lin a b] (the calls of the two    *)
+(* threads [a], [b] in the order [lin] in which they took the lock; this   *)
+(* is what the correspondence check observes on real threads under a       *)
+(* deterministic scheduler).  A linearisation is a history, so every       *)
+(* theorem above about all histories holds for every interleaving; stated  *)
+(* for the clauses a race would break:                                     *)
+(* ====================================================================== *)
+
+(* Whatever holds of every call of both threads holds of every call of every linearisation. *)
+Theorem c09_two_threads_linearisation_is_a_history :
+  forall (P : op -> Prop) lin a b, Forall P a -> Forall P b -> Forall P (merge lin a b).
+Proof. exact merge_Forall. Qed.
+Print Assumptions c09_two_threads_linearisation_is_a_history.
+
+(* TERMINATED is absorbing in every interleaving; once one thread's terminate() has taken effect, nothing the
+   other thread does afterwards (a renew() that was already waiting for the lock included) leaves TERMINATED. *)
+Theorem c09_two_threads_terminated_absorbing :
+  forall dep rate cfg s pre a b lin,
+    ~ In Reset a -> ~ In Reset b ->
+    (ph s = Terminated -> ph (exec dep rate current cfg s (merge lin a b)) = Terminated) /\
+    ph (exec dep rate current cfg s (pre ++ Terminate :: merge lin a b)%list) = Terminated.
+Proof.
+  exact (fun dep rate cfg s pre a b lin Ha Hb =>
+           conj (fun Hp => threads_terminated_absorbing_proof dep rate cfg s a b lin Hp Ha Hb)
+                (threads_terminate_wins_proof dep rate cfg s pre a b lin Ha Hb)).
+Qed.
+Print Assumptions c09_two_threads_terminated_absorbing.
+
+Theorem c09_two_threads_length_in_range :
+  forall dep rate cfg pre a b lin M,
+    0 <= max_ops cfg <= M ->
+    Forall valid_op pre -> Forall valid_op a -> Forall valid_op b ->
+    Forall (max_ops_within M) pre -> Forall (max_ops_within M) a -> Forall (max_ops_within M) b ->
+    0 <= len (exec dep rate current cfg (init cfg) (pre ++ merge lin a b)%list) <= M.
+Proof. exact threads_length_in_range_proof. Qed.
+Print Assumptions c09_two_threads_length_in_range.
